@@ -14,8 +14,10 @@ import (
 	"github.com/fatedier/frp/client/visitor"
 	v1 "github.com/fatedier/frp/pkg/config/v1"
 	"github.com/fatedier/frp/pkg/msg"
+	httppkg "github.com/fatedier/frp/pkg/util/http"
 	"github.com/fatedier/frp/pkg/util/wait"
 	"github.com/fatedier/frp/verif"
+	"github.com/gorilla/mux"
 )
 
 // Unknown code below the control: the connector (real dialer or virtual
@@ -397,4 +399,24 @@ func verif_client_relogin_step() {
 	done, _ := verif.CallTargetR2[bool, error]()
 	verif.Ensures(!done, "the_relogin_loop_never_gives_up_by_itself")
 	verif.Ensures(verif.CallCount("Service).loopLoginUntilSuccess") == 1 && verif.CalledWith("Service).loopLoginUntilSuccess", 1, 20*time.Second) && verif.CalledWith("Service).loopLoginUntilSuccess", 2, false), "relogin_retries_until_success_capped_at_20s")
+}
+
+// registerRouteHandlers (C07 "the frps dashboard / frpc admin APIs: nothing is
+// served unless the exact user name and password are presented"): the root
+// router carries no credential check, and the only route it gets is the
+// liveness probe "/healthz"; besides that route and the NewRoute from which
+// the sub-router is cut, every router call is made on the sub-router, which is
+// given the basic-auth middleware (Use).
+//
+//verif:contract (*~/client.Service).registerRouteHandlers
+//verif:props C07
+func verif_client_registerRouteHandlers(svr *Service, helper *httppkg.RouterRegisterHelper) {
+	root := helper.Router
+	verif.ResetEvents()
+	svr.registerRouteHandlers(helper)
+	verif.Ensures(verif.CallCountWith2("mux.Router).HandleFunc", 0, root, 1, "/healthz") == 1 && verif.CallCountWith("mux.Router).NewRoute", 0, root) == 1, "unauthenticated_router_serves_the_liveness_probe_only")
+	sub := verif.Ret[*mux.Router]("mux.Route).Subrouter", 0)
+	verif.Ensures(verif.CallCount("mux.Route).Subrouter") == 1 && verif.Same(verif.NthArg[*mux.Route]("mux.Route).Subrouter", 0, 0), verif.Ret[*mux.Route]("mux.Router).NewRoute", 0)), "one_sub_router_cut_from_the_root")
+	verif.Ensures(verif.CallCountWith("mux.Router).Use", 0, sub) == 1, "sub_router_carries_the_auth_middleware")
+	verif.Ensures(verif.CallCount("mux.Router).") == 2+verif.CallCountWith("mux.Router).", 0, sub), "every_other_registration_goes_to_the_sub_router")
 }
